@@ -212,7 +212,7 @@ class OperatorCircuitEvaluator(BaseCircuitEvaluator):
             precision=self._estimator_precision,
         ).result()
 
-        return [real(res.data.evs) for res in result]
+        return [float(real(res.data.evs)) for res in result]
 
     @property
     def n_qubits(self) -> int:
